@@ -5,12 +5,12 @@ Import ListNotations.
 Require Import MV.Lib.Base MV.C09.Gen MV.C09.Model MV.C09.ProofsDijkstra MV.C09.ProofsMesh.
 Open Scope Z_scope.
 
-Lemma back_set_back : forall fuel pr start v acc,
-  back_set fuel pr start v (v :: acc) = back fuel pr start v acc.
+Lemma back_set_back : forall fuel pr start v acc p,
+  back fuel pr start v acc = Ok p -> p <> [] -> back_set fuel pr start v (v :: acc) = Ok p.
 Proof.
-  induction fuel as [|f IH]; intros pr start v acc; [reflexivity|]. simpl.
-  destruct (Z.eqb_spec v start) as [->|Ne]; [reflexivity|].
-  destruct (zget pr v) as [u|]; [apply IH | reflexivity].
+  induction fuel as [|f IH]; intros pr start v acc p; [discriminate|]. simpl.
+  destruct (Z.eqb_spec v start) as [->|Ne]; [auto|].
+  destruct (zget pr v) as [u|]; [apply IH|]. intros H. inversion H. congruence.
 Qed.
 
 Lemma NoDup_app_notin (A B : list Z) x : NoDup (A ++ x :: B) -> ~ In x B.
@@ -93,7 +93,7 @@ Section SetLevel.
 
   Lemma set_run_ok : exists st ord, set_run Q qempty qpush qpop m ws start T = Ok st /\ set_final st ord.
   Proof.
-    unfold set_run. rewrite Hstart, HT. simpl negb. cbv iota.
+    unfold set_run. rewrite Hstart, HT. simpl orb. simpl negb. cbv iota.
     apply (dijkstra_terminates Q qempty qpush qpop content qinv PQ (set_nbrs m T) (set_weight m ws) relax_set relax_set_spec
              verts' verts'_nodup set_closed set_nonneg start start_in').
   Qed.
@@ -165,7 +165,7 @@ Section SetLevel.
                    | None => KeyError
                    | Some u0 => back_set (S (Z.to_nat (nvert m))) (pred st) start u0 [u0]
                    end).
-      destruct (Z.eqb_spec sentinel start); [contradiction|]. rewrite P1. rewrite back_set_back. exact Hb.
+      destruct (Z.eqb_spec sentinel start); [contradiction|]. rewrite P1. apply back_set_back; [exact Hb | exact G1].
     - assert (Hind : set_ind start p = u).
       { unfold set_ind. destruct p as [|a p']; [congruence|]. rewrite (last_indep (a :: p') start 0) by discriminate. exact G3. }
       rewrite Hind. split; [exact HuT|]. split.
@@ -210,12 +210,14 @@ Section SetTheorem.
       destruct Hreach as [t0 [p0 [[<-|[]] Hp0]]].
       destruct (shortest_path_correct Q qempty qpush qpop content qinv PQ m ws OK start Hstart (shortcut_targets start [t]))
         as [l [Hl Fl]].
-      { intros x Hx. apply dedup_In in Hx. rewrite S2 in Hx. destruct Hx as [<-|[]]. eauto. }
+      { apply forallb_forall. intros x Hx. apply dedup_In in Hx. rewrite S2 in Hx. destruct Hx as [<-|[]].
+        apply (forallb_In _ _ _ HT). left. reflexivity. }
       rewrite Hl. cbn [rbind]. rewrite S2 in Fl.
       inversion Fl as [|? tp ? l' Hfo Fl' Ea Eb]; subst. inversion Fl'; subst.
       destruct Hfo as [Hf Ho].
       destruct tp as [t1 p]. simpl in Hf, Ho. subst t1. simpl find. rewrite Z.eqb_refl.
-      exists t, p. split; [reflexivity|]. destruct Ho as [Hv Hopt].
+      exists t, p. split; [reflexivity|].
+      destruct Ho as [Ho|[_ Hn]]; [|rewrite Hn in Hp0; discriminate]. destruct Ho as [Hv Hopt].
       split; [left; reflexivity|]. split; [exact Hv|].
       intros t' p' [<-|[]] Hp'. apply Hopt. exact Hp'.
     - (* two or more entries: the sink construction *)
